@@ -71,6 +71,17 @@ theorem readEnv_archiveEnv (ts lu : Nat) (set : List Nat) (hts : ts < 1844674407
   rw [this, List.take_left']
   rfl
 
+/-- Two different replies never share an envelope: stamps and nested bytes can be read off the bytes. -/
+theorem archiveEnv_injective (ts lu ts' lu' : Nat) (set set' : List Nat)
+    (h1 : ts < 18446744073709551616) (h2 : lu < 18446744073709551616) (h3 : set.length + 32 ≤ 2147483648)
+    (h1' : ts' < 18446744073709551616) (h2' : lu' < 18446744073709551616) (h3' : set'.length + 32 ≤ 2147483648)
+    (h : archiveEnv ts lu set = archiveEnv ts' lu' set') : ts = ts' ∧ lu = lu' ∧ set = set' := by
+  have a := readEnv_archiveEnv ts lu set h1 h2 h3
+  have b := readEnv_archiveEnv ts' lu' set' h1' h2' h3'
+  rw [h] at a; rw [a] at b
+  injection b with b; injection b with b1 b; injection b with b2 b3
+  exact ⟨b1, b2, b3⟩
+
 /-- **getState_exact**: the whole way - framed by the serving node, cut in any chunks, checked and
 read by the asking node - hands over exactly the stamps and the nested state bytes that were sent. -/
 theorem getState_exact (ts lu : Nat) (set : List Nat) (respCuts : List Nat) (hts : ts < 18446744073709551616)
